@@ -147,8 +147,12 @@ fn float_display_int(f: f64) -> Option<Option<i64>> {
 impl Walk {
     fn lit(&mut self, l: &mut Literal) {
         if self.in_fstring > 0 {
-            if matches!(l, Literal::String(_) | Literal::Bytes(_)) {
-                self.hits.insert("F:fmt-fstring-escape");
+            // a string inside an f-string expression is printed with `"`; the lexer's brace scanner does not look at
+            // quotes, so only braces inside such a string confuse it
+            if let Literal::String(t) = l {
+                if t.contains('{') || t.contains('}') {
+                    self.hits.insert("F:fmt-fstring-nested-brace");
+                }
             }
         }
         match l {
@@ -199,7 +203,7 @@ impl Walk {
         let mut x = &e.node;
         loop {
             match x {
-                Expr::Match(..) => {
+                Expr::Match(..) | Expr::If(..) => {
                     self.hits.insert("F:fmt-match-operand");
                     return;
                 }
@@ -229,11 +233,6 @@ impl Walk {
     }
 
     fn expr(&mut self, e: &mut Spanned<Expr>) {
-        if self.in_fstring > 0 {
-            if let Expr::FString(_) = &e.node {
-                self.hits.insert("F:fmt-fstring-escape");
-            }
-        }
         match &mut e.node {
             Expr::Ident(_) | Expr::SelfExpr => {}
             Expr::Literal(l) => self.lit(l),
@@ -281,7 +280,6 @@ impl Walk {
                 for arm in arms.iter_mut() {
                     self.pattern(&mut arm.node.pattern);
                     if let Some(g) = &mut arm.node.guard {
-                        self.hits.insert("F:fmt-guard");
                         self.expr(g);
                     }
                     match &mut arm.node.body {
@@ -294,7 +292,6 @@ impl Walk {
                 }
             }
             Expr::If(ie) => {
-                self.hits.insert("F:fmt-if-expr");
                 self.if_exprs += 1;
                 self.expr(&mut ie.condition);
                 self.block(&mut ie.then_body);
@@ -318,9 +315,6 @@ impl Walk {
                 }
             }
             Expr::Closure(ps, body) => {
-                if !ps.is_empty() {
-                    self.hits.insert("F:fmt-closure");
-                }
                 self.params(ps);
                 self.expr(body);
             }
@@ -335,11 +329,7 @@ impl Walk {
             Expr::FString(parts) => {
                 for p in parts.iter_mut() {
                     match p {
-                        FStringPart::Literal(s) => {
-                            if s.chars().any(|c| matches!(c, '"' | '\\' | '{' | '}' | '\n' | '\r')) {
-                                self.hits.insert("F:fmt-fstring-escape");
-                            }
-                        }
+                        FStringPart::Literal(_) => {}
                         FStringPart::Expr(x) => {
                             self.in_fstring += 1;
                             self.expr(x);
@@ -504,9 +494,6 @@ impl Walk {
                 self.block(&mut f.body);
             }
             Declaration::Docstring(s) => {
-                if s.contains('\\') || s.trim().contains("\"\"\"") || s.trim().ends_with('"') || s.trim().starts_with('"') {
-                    self.hits.insert("F:fmt-docstring-escape");
-                }
                 if s.trim() != s.as_str() {
                     self.hits.insert("N:docstring-trim");
                     if self.apply {
@@ -651,6 +638,8 @@ fn tail_expr(e: &Expr) -> u32 {
                 None => 0,
             }
         }
+        // an `if` expression is printed in block form and, like `match`, ends its own last line
+        Expr::If(ie) => 1 + trail(ie.else_body.as_deref().unwrap_or(&ie.then_body)),
         _ => 0,
     }
 }
